@@ -21,8 +21,8 @@ META = {
                  "2- and 3-source joins with symbolic interleaving (4 elements), feedback loop; "
                  "C: 3 sibling branches in every attachment order; D: slice.update from a symbolic "
                  "pre-state (unbounded arrival index).  Values sym in [0,2] where inspected else unbounded ints.",
-        "thorough": "A: 7 elements; B: chains of 3 units (4 elements), chains of 2 (6 elements), diamonds with "
-                    "tails, joins with pre-nodes, 6-element interleavings",
+        "thorough": "A: 7 elements; B: all chains of 2 (6 elements), chains of 3 over a 12-unit core (4 elements), "
+                    "diamonds with tails, joins with pre-nodes, 6-element interleavings",
     },
     "outside": ["user functions that mutate their argument", "more than 3 internal nodes in a chain",
                 "unhashable keys other than the hashable=False path", "Batch/DataFrame wrappers"],
@@ -301,7 +301,7 @@ def obligations(tier):
                               {"template": "chain", "units": list(ch), "small": small},
                               kB if q else 6, B, flush=("collect" in ch)))
     if not q:
-        for ch in SP.chains(3, SP.CORE):
+        for ch in SP.chains(3, SP.SMALL_CORE):
             small = SP.inspects(ch)
             obls.append(_pipe_obl("B/chain/%s/k=4" % "+".join(ch),
                                   {"template": "chain", "units": list(ch), "small": small},
@@ -310,7 +310,7 @@ def obligations(tier):
     As = [None, "map", "filter"] if q else [None, "map", "filter", "unique", "acc"]
     Bs = [None, "filter", "acc", "slice_1_n_2"] if q else [None, "filter", "acc", "slice_1_n_2",
                                                          "unique_max1", "map"]
-    tails = [None] if q else [None, "window2", "unique", "partition2"]
+    tails = [None] if q else [None, "window2"]
     for a in As:
         for b in Bs:
             if a is None and b is None:
